@@ -254,6 +254,10 @@ class ClauseEnv:
     def obj(self, ref):
         return ObjView(self._it, ref, self._heap)
 
+    def has_ghost(self, name):
+        gv = getattr(self._fr, 'ghost_values', None)
+        return gv is not None and name in gv
+
     def has_local(self, name):
         return name in self._locals
 
@@ -281,7 +285,8 @@ class VEngine(Engine):
         self.sorted_hook = None
         self.all_hook = None
         self.map_hook = None
-        self.open_hook = None
+        self.open_hook = getattr(lib, 'open_fd_hook', None)
+        self.open_path_hook = None
         self.list_remove_hook = None
         self.dict_update_hook = None
         self.codepoint_mode = False
